@@ -123,6 +123,13 @@ pub fn fixed_corpus() -> Vec<(String, crate::esref::Flags)> {
         ("[]|[^]", ""),
         ("x*", ""),
         ("", ""),
+        // capture groups next to never-matching atoms (the optimizer must not drop group slots)
+        ("(?!(a))[]|b(c)", ""),
+        ("(?:[](?<!(x))|é)\\1é", ""),
+        ("(?:(a)[])?b(c)\\2", ""),
+        ("(a)[]|(b)", ""),
+        ("(?=(a)[])|(b)\\2", ""),
+        ("(?<!(a)[^])|(b)\\2", "s"),
         ("^\\d{6,8}?$", ""),
         ("(a{6,7}?)b", ""),
         ("x*?y{6,}", ""),
